@@ -86,6 +86,12 @@ T_C04_RoundRobin == (Observed /\ ~everFaulted) =>
 T_C04_RoundRobinMeasured == Observed =>
   \A k \in 1..(Len(DL) - W + 1) :
      (\A j \in k..(k + W - 2) : DL[j][7]) => (\A a, b \in k..(k + W - 1) : DL[a][2] = DL[b][2] => a = b)
+\* AcceptDispatch.C04_CyclicStep on the recorded dispatches: DL[k][8] = the accept thread's availability bits (by worker
+\* index) right after dispatch k; every worker strictly between two consecutive targets was marked unavailable
+TBetweenW(p, i) == IF i > p THEN {w \in Workers : p < w /\ w < i} ELSE {w \in Workers : w > p \/ w < i}
+T_C04_SkipsOnlyUnavailable == (Observed /\ ~everFaulted) =>
+  \A k \in 1..(Len(DL) - 1) :
+     (Len(DL[k + 1][8]) = W) => \A w \in TBetweenW(DL[k][2], DL[k + 1][2]) : ~DL[k + 1][8][w + 1]
 T_C04_SaturatedGetsNothing == Observed =>
   /\ C02_Bound
   /\ ~everFaulted => \A k \in 1..Len(DL) : DL[k][4] <= Limit
